@@ -512,6 +512,10 @@ func Run(job *wk.Job, w *wk.Worker) error {
 			return err
 		}
 		w.Begin(0, func() interface{} { return c })
+		if c.Mode == "history" {
+			r.earlierDestination(false)
+			return nil
+		}
 		r.check(c, false)
 		return nil
 	}
@@ -545,6 +549,11 @@ func Run(job *wk.Job, w *wk.Worker) error {
 			}
 		}
 		idx++
+	}
+	if p.Every == 1 && w.Mine(idx) {
+		w.Begin(idx, func() interface{} { return Case{Layout: []string{"earlier-destination"}, Mode: "history"} })
+		w.Nontrivial()
+		r.earlierDestination(true)
 	}
 	runtime.GC()
 	return nil
